@@ -125,7 +125,7 @@ def family(kind, n):
     return xs, ys
 
 
-MOVES = [(1, 0), (0, 1), (1, 1), (2, 1), (1, 2)]      # plateau, vertical step, diagonal, shallow, steep (in units of `scale`)
+MOVES = [(1, 0), (0, 1), (1, 1), (2, 1), (1, 2), (0, 0)]      # plateau, vertical step, diagonal, shallow, steep (in units of `scale`); (0,0) = the same sample listed twice
 
 
 def path_points(moves, scale):
@@ -143,10 +143,13 @@ def path_cases(tier):
     nshort = 5 if tier == "quick" else 6
     for n in range(1, nshort + 1):
         for mv in itertools.product(range(len(MOVES)), repeat=n):
+            if all(m == 5 for m in mv):
+                continue                         # one point listed several times is not a profile
             for eps in (0.1, 0.5):
                 for hot in (True, False):
-                    yield {"kind": "path", "moves": list(mv), "scale": 1.0, "eps": eps, "hot": hot, "rev": False}
-            yield {"kind": "path", "moves": list(mv), "scale": 1.0, "eps": 0.5, "hot": True, "rev": True}
+                    yield {"kind": "path", "moves": list(mv), "scale": 1.0, "eps": eps, "hot": hot, "rev": not hot}   # hot profiles listed supply -> target: enthalpy descending
+            yield {"kind": "path", "moves": list(mv), "scale": 1.0, "eps": 0.5, "hot": True, "rev": False}
+            yield {"kind": "path", "moves": list(mv), "scale": 1.0, "eps": 0.5, "hot": False, "rev": True}
     kinds = (0, 1, 2) if tier == "quick" else (0, 1, 2, 3)
     for n in ((10,) if tier == "quick" else (10, 11)):
         for mv in itertools.product(kinds, repeat=n):
@@ -275,7 +278,7 @@ SUBCHECKS = {
         describe="get_piecewise_data_points on all lattice polylines and parametrised families",
         rule="case = (polyline, eps, hot/cold); non-trivial = simplification removed an interior point or the refinement branch ran (>10 breakpoints)",
         cases=pw_cases, run=pw_run,
-        bound=lambda t: ("{0..3}^n n<=6 x 3 eps x hot/cold + 5 families x {11,50} points x 4 eps + lattice paths with vertical steps and plateaus: all of <=5 moves from 5, all corner-only paths of 10 moves from 3" if t == "quick"
-                         else "{0..3}^n n<=7 + families up to 500 points + lattice paths: all of <=6 moves from 5, corner-only paths of 10-11 moves from 4"),
+        bound=lambda t: ("{0..3}^n n<=6 x 3 eps x hot/cold + 5 families x {11,50} points x 4 eps + lattice paths with vertical steps and plateaus: all of <=5 moves from 6 (incl. a repeated sample), all corner-only paths of 10 moves from 3" if t == "quick"
+                         else "{0..3}^n n<=7 + families up to 500 points + lattice paths: all of <=6 moves from 6 (incl. a repeated sample), corner-only paths of 10-11 moves from 4"),
     ),
 }
